@@ -8,7 +8,9 @@ EXPLANATION = ("Static rules over quinn-proto MIR: (a) Datagrams::send admission
                "from the *remote* CID length, and the peer limit; (c) queue direction: oldest-first eviction and delivery (pop_front), append with push_back, a datagram "
                "that does not fit goes back to the front; (d) black-hole and unblock events; (e) datagrams enter packets only whole through DatagramState::write under "
                "its size guard, are never recorded for retransmission, and received frames are pushed whole; (f) byte accounting of recv_buffered / outgoing_total at "
-               "every queue mutation. Byte identity end-to-end is NOT decided.")
+               "every queue mutation; (g) async layer: Event::DatagramsUnblocked (one per blocked -> unblocked transition) releases every parked send_datagram_wait "
+               "future (notify_waiters on datagrams_unblocked on every path of its arm); send_datagram_wait sends with drop = false, send_datagram with drop = true. "
+               "Byte identity end-to-end is NOT decided.")
 RULE = "rule instances = (rule, site) pairs over MIR branches / stores / call sites; non-trivial = bound to a real site"
 DS = 'datagrams::DatagramState'
 
@@ -344,6 +346,63 @@ def rule_f(ctx):
     who_may_write(ctx, 'f', 'recv_buffered_writers', DS, 'recv_buffered', ['DatagramState::received', 'DatagramState::recv'], floor=2)
 
 
+def _proto_event_discr(F, name):
+    """discriminant of quinn_proto::connection::Event::<name> (None when the ADT / variant is gone)"""
+    ev = [a for p, a in F.adts.items() if a.get('crate') == 'quinn_proto' and p.endswith('connection::Event')]
+    if len(ev) != 1:
+        return None
+    for i, v in enumerate(ev[0]['variants']):
+        if v['name'] == name:
+            return int(v.get('discr', i))
+    return None
+
+
+def _is_polled_event(t):
+    """t IS the payload of `Some(..)` returned by quinn_proto::Connection::poll"""
+    return t[0] == 'field' and t[2] == '0' and t[1][0] == 'variant' and t[1][2] == 'Some' and _is_call(t[1][1], 'quinn_proto::Connection::poll')
+
+
+def rule_g(ctx):
+    """async layer.  quinn-proto emits ONE DatagramsUnblocked per blocked -> unblocked transition (rule d: the event is tied to
+    send_blocked and clears it), and only a sender whose retry is refused re-arms the flag.  Hence the handler of that event has
+    to release EVERY parked SendDatagram: a sender left asleep is never woken again although the buffer-space query reports room."""
+    F = ctx.facts
+    fa = ctx.qfn('State::forward_app_events')
+    val = _proto_event_discr(F, 'DatagramsUnblocked')
+    nxt = [c.bb for c in fa.calls_to('quinn_proto::Connection::poll')]
+    disp = [br for br in branches(F, fa) if br.desc[0] == 'discr' and _is_polled_event(br.desc[1])]
+    explicit = [br for br in disp if val in [v for v, _ in br.edges]]
+    ctx.check(val is not None and bool(disp), 'g', 'unblocked_event_dispatch', fa, fa.where(), 'dispatch on the discriminant of the event returned by Connection::poll (%d branch(es))' % len(disp),
+              'cannot locate the dispatch on quinn_proto::Event / Event::DatagramsUnblocked in forward_app_events')
+    # the wake-up that reaches all parked senders: Notify::notify_waiters on the scalar Notify `datagrams_unblocked` itself
+    # (notify_one releases a single waiter; another Notify releases none of them)
+    wake = sorted({c.bb for c in fa.calls_to('Notify::notify_waiters') if c.args and _is_flag(arg_desc(F, c, 0), 'datagrams_unblocked')})
+    goals = set(fa.return_blocks()) | set(nxt)
+    bad = []
+    for br in (explicit or disp):
+        t = br.target(val)
+        if t is None:
+            bad.append('bb%d: no edge for the event' % br.bb)
+            continue
+        p = path_avoiding(fa, [t], goals, wake)
+        if p is not None:
+            bad.append(fmt_path(fa, p))
+    ctx.check(val is not None and bool(disp) and bool(wake) and not bad, 'g', 'unblocked_event_wakes_every_blocked_sender', fa, fa.where(),
+              'Event::DatagramsUnblocked -> shared.datagrams_unblocked.notify_waiters() on every path to the next event / the return',
+              'the single DatagramsUnblocked event of a blocked -> unblocked transition does not wake all parked send_datagram_wait futures '
+              '(no Notify::notify_waiters on datagrams_unblocked on: %s): the senders left asleep are never woken again although send_buffer_space reports room' % (bad or 'any path'))
+    # the two send modes: the waiting variant never evicts (drop == false, so a refused retry re-arms send_blocked), the
+    # non-waiting variant always makes room (drop == true, it has no Blocked outcome to report)
+    for fn, drop, what in (('<SendDatagram as Future>::poll', False, 'send_datagram_wait'), ('Connection::send_datagram', True, 'send_datagram')):
+        anchor = ctx.qfn(fn)
+        sites = [c for c in F.callers_of('quinn_proto::Datagrams::send', crate='quinn') if F.root_of(c.body).id == F.root_of(anchor).id]
+        vals = [y for c in sites for y in (flat(arg_desc(F, c, 2)) if len(c.args) > 2 else [('missing',)])]
+        ctx.check(bool(sites) and all(_is_bool(y, drop) for y in vals), 'g', 'send_mode_' + what, anchor, sites[0].where() if sites else anchor.where(),
+                  'Datagrams::send(.., drop = %s)' % str(drop).lower(),
+                  '%s no longer calls Datagrams::send with drop = %s (%s): %s' % (what, str(drop).lower(), [D.render(y)[:40] for y in vals],
+                                                                                   'waiting senders evict queued datagrams instead of blocking on the send-buffer bound' if not drop else 'the non-waiting send can be refused as Blocked'))
+
+
 def run(ctx):
     rule_a(ctx)
     rule_b(ctx)
@@ -351,3 +410,4 @@ def run(ctx):
     rule_d(ctx)
     rule_e(ctx)
     rule_f(ctx)
+    rule_g(ctx)
